@@ -48,8 +48,15 @@
                           `fn main(l: List[!]) { let a = { f: l }; let b = { f: [[a]] }; a == b; }`
                           (replayed on the real code: corpus/C06/19).
 
+   * the PARSER — in `Props/C06Parse.lean` (`parse_total`, `parse_error_spans_ok`,
+     `parse_span_table_ok`, `literal_slices_ok`, `fstring_part_slices_ok` over the
+     model `Model/Parse.lean`, which drives the lexer model of this file) and
+     `Props/C06ParseSource.lean` (the regenerated decision tables and call
+     skeletons of src/parser/*.rs are the ones the model was written against).
+
   NOT proved (covered by the crash oracle only — exploration): the bodies of
-  the parser and the type checker, lowering and code generation.
+  the type checker (beyond unification and the cycle check), lowering and code
+  generation; the literal decoders are parameters of the parser theorems.
 -/
 import RotoV.Lemmas.Lexer
 import RotoV.Lemmas.TypeCycle
